@@ -43,7 +43,8 @@ NUM = [("0", ""), ("1", ""), ("-1", ""), ("2**70", ""), ("-2**63", ""), ("1.5", 
 ITER = [("[]", "f"), ("[1, 2, 3]", "f"), ("(3, 1, 2)", ""), ("'bca'", ""), ("{'b': 1, 'a': 2}", "f"), ("{2, 1}", "f"), ("range(5)", ""),
         ("iter([2, 1])", "f"), ("[1, 'a']", "f"), ("[0, False, '']", "f"), ("[[1, 2], [3, 4]]", "f"), ("[(1, 'a'), (2, 'b')]", "f"),
         ("[(1, 2, 3)]", "f"), ("S.RaisingIter(2)", "f"), ("None", ""), ("5", ""), ("b'ba'", ""), ("[1.5, float('nan'), 0.5]", "f"),
-        ("(x for x in [3, 1])", "f"), ("[True, 2]", "f"), ("['a', 'b']", "f"), ("[b'a']", "f")]
+        ("(x for x in [3, 1])", "f"), ("[True, 2]", "f"), ("['a', 'b']", "f"), ("[b'a']", "f"),
+        ("[1, True, 1.0, 0, False, 0.0, -0.0]", "f"), ("[(1, 'a'), (1.0, 'a'), (True, 'a')]", "f"), ("[2, 1.0, True, 2.0, 1]", "f")]
 ENC = [("'utf8'", ""), ("'utf-8'", ""), ("'UTF-8'", ""), ("'ascii'", ""), ("'latin-1'", ""), ("'latin1'", ""), ("'utf-16'", ""),
        ("'utf-16-le'", ""), ("'utf-32'", ""), ("'nonexistent'", ""), ("None", ""), ("1", ""), ("'U8'", ""), ("'utf_8'", "")]
 ERR = [("'strict'", ""), ("'ignore'", ""), ("'replace'", ""), ("'nonexistent'", ""), ("None", ""), ("'surrogateescape'", ""),
@@ -53,7 +54,8 @@ INT_ARG = [("'12'", ""), ("' 12 '", ""), ("'0x1f'", ""), ("'1_000'", ""), ("b'12
            ("float('inf')", ""), ("''", ""), ("bytearray(b'7')", "f"), ("'\\u0663'", ""), ("Decimal('7.9')", ""), ("'1' * 5000", "")]
 BASE = [("10", ""), ("0", ""), ("16", ""), ("2", ""), ("36", ""), ("1", ""), ("37", ""), ("-1", ""), ("None", ""), ("'10'", ""), ("True", ""),
         ("S.Idx(16)", ""), ("2**70", "")]
-CHR_ARG = [("0", ""), ("65", ""), ("255", ""), ("256", ""), ("0xd800", ""), ("0xffff", ""), ("0x10000", ""), ("0x10ffff", ""), ("0x110000", ""),
+CHR_ARG = [("1.5", ""), ("0.0", ""), ("-0.5", ""), ("float('nan')", ""), ("Decimal('65')", ""), ("Fraction(65, 1)", ""), ("S.IntOnly(65)", ""),
+           ("S.IntSub(65)", ""), ("S.FloatSub(65.0)", ""), ("0", ""), ("65", ""), ("255", ""), ("256", ""), ("0xd800", ""), ("0xffff", ""), ("0x10000", ""), ("0x10ffff", ""), ("0x110000", ""),
            ("-1", ""), ("2**31", ""), ("2**70", ""), ("True", ""), ("65.0", ""), ("'a'", ""), ("None", ""), ("S.Idx(66)", "")]
 CHR_C = [("0", ""), ("65", ""), ("255", ""), ("256", ""), ("0xd800", ""), ("0xffff", ""), ("0x10000", ""), ("0x10ffff", ""), ("0x110000", ""),
          ("-1", ""), ("2**31 - 1", ""), ("-2**31", "")]
@@ -82,6 +84,10 @@ CNUM = [("0", ""), ("1", ""), ("-1", ""), ("2", ""), ("7", ""), ("-7", ""), ("10
 PYINT = [("0", ""), ("1", ""), ("-1", ""), ("2**70", ""), ("-2**63", ""), ("-2**31", ""), ("2**63 - 1", ""), ("-(2**200)", "")]
 CINT = [("-11", ""), ("-3", ""), ("-1", ""), ("0", ""), ("1", ""), ("2", ""), ("3", ""), ("10", ""), ("2**15 - 1", ""), ("-2**15", "")]
 CSIZE = [("0", ""), ("1", ""), ("2", ""), ("3", ""), ("10", ""), ("2**63 - 1", ""), ("2**63", ""), ("2**64 - 1", "")]
+KEYFUNC = [("None", ""), ("repr", ""), ("str", ""), ("len", ""), ("5", ""), ("abs", "")]
+CHR_L = [("0", ""), ("65", ""), ("0x10ffff", ""), ("0x110000", ""), ("-1", ""), ("2**31", ""), ("2**32", ""), ("2**32 + 65", ""), ("2**62", ""),
+         ("-2**62", ""), ("2**63 - 1", ""), ("-2**63", "")]
+BINTV = [("True", ""), ("False", "")]
 CSMALL = [("-3", ""), ("-1", ""), ("0", ""), ("1", ""), ("2", ""), ("10", "")]
 CBYTE = [("0", ""), ("1", ""), ("97", ""), ("127", "")]
 CDBL = [("0.0", ""), ("-0.0", ""), ("1.5", ""), ("-1.5", ""), ("float('nan')", ""), ("float('inf')", ""), ("float('-inf')", ""), ("2.0", ""),
@@ -143,6 +149,11 @@ for _f in ("min", "max"):
     shape("minmax-const", _f, _lines("return %s(x, 1, 1.0)" % _f), x="NUM3")
 shape("minmax", "min", _lines("return min(x, False, 0), max(1, True, x), min(0, x), max(x, 1.0)"), x="NUM3")
 shape("minmax", "min", _lines("a = False", "b = 0", "return min(a, b), max(b, a), min(b, a)"), x="BOOLISH")
+shape("minmax", "min", _lines("return min(x == y, 0), max(x is None, 0), min(not x, 1), max(0, x != y), min(0, x == y)"), x="NUM3", y="NUM3")
+shape("minmax", "min", _lines("return min(a, 0), max(a, 1), min(0, a), max(1, a), min(a, b), max(b, a)"), a="BINTV:cython.bint", b="BINTV:cython.bint")
+shape("minmax", "min", _lines("return min(a, i), max(i, a), min(i, a), max(a, i)"), a="BINTV:cython.bint", i="CSMALL:cython.int|cython.long|")
+shape("minmax", "min", _lines("return min(a, i), max(i, a), min(i, a), max(a, i)"), a="BOOLISH", i="CSMALL:cython.int|")
+shape("minmax", "min", _lines("c = a == b", "return min(c, 0), max(c, 1), min(False, 0), max(True, 1), min(0, False)"), a="NUM3", b="NUM3")
 shape("minmax", "min", _lines("return min(x)"), x="ITER")
 shape("minmax", "max", _lines("return max(x, default=None)"), x="ITER")
 shape("minmax", "min", _lines("return min(x, key=lambda v: -v)"), x="ITER")
@@ -165,13 +176,26 @@ shape("sorted", "sorted", _lines("return sorted(x, reverse=r)"), x="ITER", r="BO
 shape("sorted", "sorted", _lines("return sorted(x, key=repr)"), x="ITER")
 shape("sorted", "sorted", _lines("return sorted(v for v in x)"), x="ITER")
 shape("sorted", "sorted", _lines("return sorted(x, key=None, reverse=True)"), x="ITER")
+shape("sorted", "sorted", _lines("return sorted(x, reverse=True)"), x="ITER")
+shape("sorted", "sorted", _lines("return sorted(x, key=lambda v: 0, reverse=r)"), x="ITER", r="BOOLISH")
+shape("sorted", "sorted", _lines("return sorted(x, key=lambda v: 0)"), x="ITER")
+shape("sorted", "sorted", _lines("return sorted(x, reverse=False), sorted(x, key=str)"), x="ITER")
+shape("sorted", "sorted", _lines("r = sorted(l)", "return r is l, r, l"), l="LIST:|list")
+shape("sorted", "sorted", _lines("r = sorted(l, reverse=True)", "return r, l"), l="LIST:|list")
+shape("sorted", "sorted", _lines("return sorted([v for v in x], reverse=True), sorted((v for v in x), key=repr, reverse=True)"), x="ITER")
+shape("sorted", "sorted", _lines("return sorted(x, k)"), x="ITER", k="BOOLISH")
+shape("sorted", "sorted", _lines("return sorted(x, reverse=r, key=k)"), x="ITER", r="BOOLISH", k="KEYFUNC")
+shape("sorted", "sorted", _lines("return sorted(iterable=x)"), x="ITER")
 shape("ordchr", "ord", _lines("return ord(x)"), x="ORD_ARG")
 shape("ordchr", "ord", _lines("return ord(x)"), x="STR:str")
 shape("ordchr", "ord", _lines("return ord(x)"), x="BYTES:bytes")
 shape("ordchr", "ord", _lines("return ord(s[i])"), s="STR:str|", i="CIDX:cython.Py_ssize_t|")
 shape("ordchr", "ord", _lines("return ord(s[i])"), s="BYTES:bytes|", i="CIDX:cython.Py_ssize_t|")
 shape("ordchr", "chr", _lines("return chr(x)"), x="CHR_ARG")
-shape("ordchr", "chr", _lines("return chr(x)"), x="CHR_C:cython.int|cython.long")
+shape("ordchr", "chr", _lines("return chr(x)"), x="CHR_C:cython.int")
+shape("ordchr", "chr", _lines("return chr(x)"), x="CHR_L:cython.long|cython.longlong|cython.Py_ssize_t")
+shape("ordchr", "chr", _lines("return chr(x)"), x="CSIZE:cython.size_t|cython.ulong")
+shape("ordchr", "chr", _lines("return chr(x + 1)"), x="CHR_L:cython.long")
 shape("isinstance", "isinstance", _lines("return isinstance(x, c)"), x="ANY", c="CLS")
 for c in ("int", "str", "(int, float)", "(list, tuple, dict)", "bytes", "bool", "object", "type", "(str, bytes, bytearray)",
           "float", "complex", "set", "frozenset"):
